@@ -146,6 +146,7 @@ type Run struct {
 	axioms  []string
 	top     *Frame
 	oblSeen map[string]int
+	allocRefs map[string]bool
 }
 
 func (e *Engine) newRun(prop string, safety bool) *Run {
@@ -241,6 +242,7 @@ type Frame struct {
 	names     map[string]Value // overrides (loop phis, results)
 	lets      map[string]Expr
 	stack     []*ssa.Function
+	readOrd   map[ssa.Instruction]string // load of a struct field -> "Type.field#k"
 }
 
 func (r *Run) newFrame(fn *ssa.Function, depth int) *Frame {
@@ -309,6 +311,36 @@ func (fr *Frame) analyse() {
 	for i, h := range headers {
 		fr.loops[h].ordinal = i
 	}
+	// static ordinals of field loads (anchors for "at read" ghost assertions)
+	fr.readOrd = map[ssa.Instruction]string{}
+	cnt := map[string]int{}
+	for _, b := range fn.Blocks {
+		for _, in := range b.Instrs {
+			u, ok := in.(*ssa.UnOp)
+			if !ok || u.Op != token.MUL {
+				continue
+			}
+			fa, ok := u.X.(*ssa.FieldAddr)
+			if !ok {
+				continue
+			}
+			pt, ok := fa.X.Type().Underlying().(*types.Pointer)
+			if !ok {
+				continue
+			}
+			st, ok := pt.Elem().Underlying().(*types.Struct)
+			if !ok {
+				continue
+			}
+			tn := typeKey(pt.Elem())
+			if n, ok := pt.Elem().(*types.Named); ok {
+				tn = n.Obj().Name()
+			}
+			key := tn + "." + st.Field(fa.Field).Name()
+			fr.readOrd[in] = fmt.Sprintf("%s#%d", key, cnt[key])
+			cnt[key]++
+		}
+	}
 	// locals from DebugRef
 	for _, b := range fn.Blocks {
 		for _, in := range b.Instrs {
@@ -340,13 +372,16 @@ func (r *Run) assume(st *State, c string) {
 	if c == "true" {
 		return
 	}
-	st.guard = r.ctx.define("g", sBool, and(st.guard, c))
+	st.guard = r.ctx.defineGuard(st.guard, c)
 }
 
 func (r *Run) newRef(st *State) string {
 	ref := st.alloc
-	r.assume(st, "(bvult "+st.alloc+" #xfffffff0)")
-	st.alloc = r.ctx.define("alloc", sRef, "(bvadd "+st.alloc+" #x00000001)")
+	if r.allocRefs == nil {
+		r.allocRefs = map[string]bool{}
+	}
+	r.allocRefs[ref] = true
+	st.alloc = r.ctx.define("alloc", sRef, "(+ "+st.alloc+" 1)")
 	return ref
 }
 
@@ -358,10 +393,25 @@ func (r *Run) fldRef(structKey, field string, base string) string {
 		r.ctx.prelude = append(r.ctx.prelude,
 			fmt.Sprintf("(declare-fun %s (%s) %s)", f, sRef, sRef),
 			fmt.Sprintf("(declare-fun %s.inv (%s) %s)", f, sRef, sRef),
-			fmt.Sprintf("(assert (forall ((x %s)) (! (and (= (%s.inv (%s x)) x) (= (refkind (%s x)) %s) (= (= (%s x) #x00000000) (= x #x00000000))) :pattern ((%s x)))))", sRef, f, f, f, bvLit(uint64(id), 16), f, f),
+			fmt.Sprintf("(assert (forall ((x %s)) (! (and (= (%s.inv (%s x)) x) (= (refkind (%s x)) %s) (= (= (%s x) 0) (= x 0))) :pattern ((%s x)))))", sRef, f, f, f, bvLit(uint64(id), 16), f, f),
 		)
 	}
 	return "(" + f + " " + base + ")"
+}
+
+// seqOf returns the abstract sequence  sub(arr, off, n)  over elements of sort es. Two
+// sequences are equal exactly when they have the same length and elements; only the
+// "elements" direction is axiomatised (sound: the function is otherwise uninterpreted).
+func (r *Run) seqOf(es, arr, off, n string) string {
+	id := sanitize(es)
+	fn := "sub." + id
+	r.declareOnce(fmt.Sprintf("(declare-sort Seq.%s 0)", id))
+	r.declareOnce(fmt.Sprintf("(declare-fun %s (%s (_ BitVec 64) (_ BitVec 64)) Seq.%s)", fn, sArr(sBV(64), es), id))
+	r.declareOnce(fmt.Sprintf("(declare-fun at.%s (Seq.%s (_ BitVec 64)) %s)", id, id, es))
+	r.declareOnce(fmt.Sprintf("(declare-fun len.%s (Seq.%s) (_ BitVec 64))", id, id))
+	r.declareOnce(fmt.Sprintf("(assert (forall ((a %s) (o (_ BitVec 64)) (n (_ BitVec 64)) (k (_ BitVec 64))) (! (=> (and (bvsle #x0000000000000000 k) (bvslt k n)) (= (at.%s (%s a o n) k) (select a (bvadd o k)))) :pattern ((at.%s (%s a o n) k)))))", sArr(sBV(64), es), id, fn, id, fn))
+	r.declareOnce(fmt.Sprintf("(assert (forall ((a %s) (o (_ BitVec 64)) (n (_ BitVec 64))) (! (= (len.%s (%s a o n)) n) :pattern ((%s a o n)))))", sArr(sBV(64), es), id, fn, fn))
+	return "(" + fn + " " + arr + " " + off + " " + n + ")"
 }
 
 func (r *Run) globalRef(name string) string {
@@ -434,10 +484,10 @@ func (r *Run) typeInv(st *State, v Value) string {
 		if x.K == kRef {
 			if x.Ty != nil {
 				if _, ok := x.Ty.Underlying().(*types.Pointer); ok {
-					return "(bvult " + x.T + " " + st.alloc + ")"
+					return and(refLe("0", x.T), refLt(x.T, st.alloc))
 				}
 				if _, ok := x.Ty.Underlying().(*types.Map); ok {
-					return "(bvult " + x.T + " " + st.alloc + ")"
+					return and(refLe("0", x.T), refLt(x.T, st.alloc))
 				}
 			}
 		}
@@ -448,11 +498,11 @@ func (r *Run) typeInv(st *State, v Value) string {
 			"(bvsle #x0000000000000000 "+x.Off+")",
 			"(bvslt "+x.Off+" #x0001000000000000)",
 			"(bvslt "+x.Cap+" #x0001000000000000)",
-			"(bvult "+x.Base+" "+st.alloc+")",
+			refLe("0", x.Base), refLt(x.Base, st.alloc),
 			implies(eq(x.Base, refLit(0)), eq(x.Cap, bvLit(0, 64))),
 		)
 	case *IfaceV:
-		return and("(bvult "+x.Ref+" "+st.alloc+")", implies(eq(x.Tag, bvLit(0, 16)), eq(x.Ref, refLit(0))))
+		return and(refLe("0", x.Ref), refLt(x.Ref, st.alloc), implies(eq(x.Tag, bvLit(0, 16)), eq(x.Ref, refLit(0))))
 	case *StructV:
 		var cs []string
 		for _, f := range x.F {
